@@ -184,6 +184,20 @@ CHECKS = {
         note="Style table and terminators are re-read from the code at every run; values ending in a terminator or in blank + "
              "mirrored prefix are outside the domain; non-ASCII values are covered by C20 / C07.",
         ref="5/C02"),
+    "C19": dict(
+        technique="TLA+ state machine of download with one action per critical section of put_license_in_file and a failure "
+                  "branch at every step (Download.tla: NeverOverwrites, NoPartialFile, OnlyLicenseFiles, RefNeedsNoNetwork, "
+                  "exit status, termination) model-checked by TLC; every initial state replayed against a scripted network; "
+                  "TLC trace validation of tree snapshots, network log and exit status",
+        text="Every combination of pre-existing LICENSES/ entries, request set, per-identifier network outcome (ok / HTTP "
+             "error / connection error) and --source (quick: a seeded sample) is run for real with urlopen replaced by a stub, "
+             "from the root, a sub-directory, LICENSES/ and outside, with and without --root / Git, repeated invocations, "
+             "--all and --output; TLC checks that no existing file changes, only the prescribed paths appear, LicenseRef- "
+             "needs no network, a failed transfer leaves no file, content is the complete body, later identifiers are still "
+             "handled, the exit status tells failure, and lint reports no missing licence after a successful --all.",
+        note="Network = urllib.request.urlopen stub inside the harness process; body-read failures are not scripted; an "
+             "outside sentinel directory is part of every snapshot.",
+        ref="5/C19"),
     "C03": dict(
         technique="TLA+ requirement CoverReq (three-valued: must / must not / unpinned) vs walk-with-pruning mechanism "
                   "model-checked by TLC; TLC-enumerated directory-context x name-class x type x VCS-wish nodes built as "
